@@ -40,7 +40,17 @@ func runC10(ctx *Ctx) {
 			unknown := rapid.IntRange(0, 2).Draw(rt, "unknown") == 0 && sub != "json" && sub != "text" && sub != "jsonany"
 			canonical := sub == "json" || sub == "text" || sub == "jsonany" || rapid.Bool().Draw(rt, "canonical")
 			b, d := ctx.genTypeStream(rt, t, unknown, canonical)
-			if d == nil {
+			if d == nil && sub == "checkinit" && model.HasRequired(t.Desc) {
+				// values with unset required fields are this sub's business
+				cfg := ctx.streamCfg(unknown, canonical)
+				b = cfg.GenStream(rt, t.Desc, 0)
+				if b == nil {
+					b = []byte{}
+				}
+				if _, err := decodePartialD(t, b); err != nil {
+					return nil
+				}
+			} else if d == nil {
 				return nil
 			}
 			c := &Case{Sub: sub, Type: string(t.Name), Bytes: hexs(b), Args: map[string]string{}}
@@ -198,6 +208,9 @@ func checkC10(ctx *Ctx, c *Case) error {
 		return err
 	}
 	d, err := decodeD(t, unhex(c.Bytes))
+	if c.Sub == "checkinit" {
+		d, err = decodePartialD(t, unhex(c.Bytes))
+	}
 	if err != nil {
 		return nil
 	}
@@ -550,6 +563,20 @@ func checkC10(ctx *Ctx, c *Case) error {
 		e1, e2 := proto.CheckInitialized(p), proto.CheckInitialized(d)
 		if (e1 == nil) != (e2 == nil) {
 			return fmt.Errorf("CheckInitialized = %v, reference %v", e1, e2)
+		}
+		// the codec entry points run the same test unless told AllowPartial
+		_, m1 := proto.Marshal(p)
+		_, m2 := proto.Marshal(d)
+		if (m1 == nil) != (m2 == nil) {
+			return fmt.Errorf("proto.Marshal of a value whose initialisation state is %v: generated %v, reference %v", e2, m1, m2)
+		}
+		u1 := proto.Unmarshal(unhex(c.Bytes), t.New())
+		u2 := proto.Unmarshal(unhex(c.Bytes), t.NewD())
+		if (u1 == nil) != (u2 == nil) {
+			return fmt.Errorf("proto.Unmarshal of an encoding whose value has initialisation state %v: generated %v, reference %v", e2, u1, u2)
+		}
+		if e2 != nil {
+			ctx.Label("checkinit: required field unset somewhere")
 		}
 	case "json":
 		variants := []protojson.MarshalOptions{{}, {UseProtoNames: true}, {UseEnumNumbers: true}, {EmitUnpopulated: true}, {Multiline: true, Indent: "  "}}
